@@ -52,6 +52,10 @@ type Row struct {
 // ---------------------------------------------------------------- oracle
 
 func procOf(cfg *Config, owner, key string) *Proc {
+	// "B.k" names processor k declared by flow B (cross-flow use)
+	if i := strings.Index(key, "."); i >= 0 {
+		owner, key = key[:i], key[i+1:]
+	}
 	f := cfg.flow(owner)
 	if f == nil {
 		return nil
@@ -412,7 +416,7 @@ func main() {
 		cfg := cfg
 		runConfig(o, cfg, txnsFor(r.Fork(1), &cfg, 16), "hand-written")
 	}
-	n := o.Scale(450, 6000, 3000)
+	n := o.Scale(450, 4000, 3000)
 	for i := 0; i < n; i++ {
 		cr := r.Fork(uint64(i) + 100)
 		cfg := genConfig(cr, o.Thorough() || i%3 == 0)
